@@ -1,6 +1,7 @@
 import QR.Proofs.Stream
 import QR.Proofs.SourceTieC06
 import QR.Proofs.Pinned
+import QR.Proofs.SourceTieC20
 /-
 C06 - the data codewords of every symbol form a conformant ISO bit stream.
 Model side: `Model.dataBits` mirrors util.create_data (headers through BitBuffer.put, QRData.write, terminator, bit padding,
@@ -92,5 +93,12 @@ theorem C06_source_create_data (version level : Nat) (segs : List Seg) :
 /-- the Python functions this property's model mirrors have, in /repo's current working tree, exactly the normalised
     ASTs the model was written and validated against (fingerprints regenerated by T1 on every run) -/
 theorem C06_source_fingerprints : QR.Gen.fp_C06 = QR.Pinned.fp_C06 := by decide
+
+/-- `QRData.write` as it stands in the source: digit groups of 3, alphanumeric pairs 45·a+b in 11 bits, singles in 6, bytes in 8 -/
+theorem C06_source_write :
+    Gen.Code.write_steps = [3, 2] ∧
+    Gen.Code.write_puts = ["buffer.put(int(chars), bit_length)", "buffer.put(c, 8)",
+      "buffer.put(ALPHA_NUM.find(chars[0]) * 45 + ALPHA_NUM.find(chars[1]), 11)", "buffer.put(ALPHA_NUM.find(chars), 6)"] :=
+  QR.SourceTie.write_literals
 
 end QR.Props
